@@ -74,6 +74,10 @@ func (r *Run) callSeqRec(fd *FuncDecl, onPath map[*FuncDecl]bool, depth int) []s
 			if len(consts) > 0 {
 				k += "(" + strings.Join(consts, ",") + ")"
 			}
+			// how often an operation runs is part of it: hoisting a call out of (or into) a loop changes it
+			if lc := u.loopContext(c); len(lc) > 0 {
+				k += " @" + strings.Join(lc, " / ")
+			}
 			// evaluation order: arguments before the call itself → order by end position
 			items = append(items, item{int(c.End()), k, r.unexportedHelper(u.Info, c)})
 			return true
